@@ -456,6 +456,23 @@ def _quant(self, args, q):
     return SV(q([v.z for v in vs], body), BOOL)
 
 
+def _b_it_src(self, args, kw, node, fr):
+    """ghost: the whole sequence an iterator cell runs over"""
+    c = self.p.cell(args[0])
+    if not isinstance(c, IterCell):
+        raise OutOfSubset("it_src of a non-iterator")
+    return c.seq
+
+
+def _b_it_pos(self, args, kw, node, fr):
+    c = self.p.cell(args[0])
+    if not isinstance(c, IterCell):
+        raise OutOfSubset("it_pos of a non-iterator")
+    return SV(c.pos, INT)
+
+
+ExecPlaces.b_it_src = _b_it_src
+ExecPlaces.b_it_pos = _b_it_pos
 ExecPlaces.b_implies = _b_implies
 ExecPlaces.b_forall_int = lambda self, args, kw, node, fr: _quant(self, args, z3.ForAll)
 ExecPlaces.b_exists_int = lambda self, args, kw, node, fr: _quant(self, args, z3.Exists)
